@@ -84,11 +84,42 @@ func (x *Exec) evalBuiltin(call *ast.CallExpr, fun ast.Expr, st *St, fr *Frame, 
 		case *types.Chan:
 			r := x.allocRef(st, ty, "chan")
 			k(st, &Val{T: r, Ty: ty})
+		case *types.Slice:
+			// make([]T, n): n zero values
+			sort, ok := x.W.SortOf(ty)
+			if !ok || !sort.IsSeq() || len(call.Args) != 2 {
+				oos("make of %s at %s", ty, x.W.pos(call.Pos()))
+			}
+			zt := x.zeroVal(ty.Underlying().(*types.Slice).Elem())
+			if zt.T == nil {
+				oos("make of %s at %s", ty, x.W.pos(call.Pos()))
+			}
+			x.eval(call.Args[1], st, fr, func(st *St, nv *Val) {
+				x.safety(st, fr, Cmp(">=", nv.T, IntLit(0)), "make-negative-length", call.Lparen)
+				ns := x.fresh("make", sort)
+				j := Var("j$", SInt)
+				x.assume(st, Eq(SeqLen(ns), nv.T))
+				x.assume(st, Forall([]*Term{j}, [][]*Term{{SeqAt(ns, j)}}, Implies(And(Cmp("<=", IntLit(0), j), Cmp("<", j, nv.T)), Eq(SeqAt(ns, j), zt.T)), "seq_make"))
+				k(st, &Val{T: ns, Ty: ty})
+			})
 		default:
 			oos("make of %s at %s", ty, x.W.pos(call.Pos()))
 		}
 	case "close":
-		x.eval(call.Args[0], st, fr, func(st *St, v *Val) { k(st, &Val{}) })
+		// closing a channel twice, or sending on a closed one, panics. The discipline checked here: a channel is closed only by
+		// the function that made it (or by one of its closures): never through a parameter, a field or a received value.
+		owned := false
+		if aid, ok := ast.Unparen(call.Args[0]).(*ast.Ident); ok && fr.fi != nil && x.Fn != nil && fr.fi.Decl == x.Fn.Decl {
+			if vo, ok := fr.info.Uses[aid].(*types.Var); ok && x.Fn != nil && x.Fn.Decl != nil && x.Fn.Decl.Body != nil {
+				owned = vo.Pos() >= x.Fn.Decl.Body.Pos() && vo.Pos() <= x.Fn.Decl.Body.End()
+			}
+		}
+		x.eval(call.Args[0], st, fr, func(st *St, v *Val) {
+			if !owned {
+				x.safety(st, fr, False, "close-of-a-channel-not-made-here", call.Lparen)
+			}
+			k(st, &Val{})
+		})
 	case "panic":
 		x.safety(st, fr, False, "panic", call.Lparen)
 	case "min", "max":
